@@ -30,6 +30,7 @@ type profile struct {
 	pRO        int // % read-only metadata
 	minOps, maxOps int
 	maxVb      int
+	pApi       int // % of query points that go through the real HTTP API (l1_api.go, l1_api_gen.go); 0 = never
 }
 
 var profiles = map[string]profile{
@@ -38,6 +39,7 @@ var profiles = map[string]profile{
 	"sess-deliver": {wEvent: 75, wAck: 10, wSave: 3, wMicro: 0, wLife: 3, wQuery: 9, pReserved: 18, pIllFormed: 6, pSkip: 45, pStore: 40, pAhead: 0, pLatest: 30, pFailSave: 0, pSysEv: 18, pRO: 5, minOps: 25, maxOps: 80, maxVb: 8},
 	"sess-ack": {wEvent: 35, wAck: 50, wSave: 5, wMicro: 0, wLife: 2, wQuery: 8, pReserved: 8, pIllFormed: 0, pSkip: 0, pStore: 50, pAhead: 0, pLatest: 20, pFailSave: 0, pSysEv: 10, pRO: 0, minOps: 20, maxOps: 70, maxVb: 3},
 	"sess-save": {wEvent: 30, wAck: 25, wSave: 12, wMicro: 28, wLife: 1, wQuery: 4, pReserved: 8, pIllFormed: 0, pSkip: 0, pStore: 40, pAhead: 0, pLatest: 30, pFailSave: 35, pSysEv: 30, pRO: 10, minOps: 25, maxOps: 70, maxVb: 3},
+	"sess-api": {wEvent: 40, wAck: 22, wSave: 8, wMicro: 4, wLife: 7, wQuery: 22, pReserved: 12, pIllFormed: 0, pSkip: 15, pStore: 50, pAhead: 0, pLatest: 35, pFailSave: 20, pSysEv: 15, pRO: 5, minOps: 25, maxOps: 70, maxVb: 4, pApi: 75},
 	"sess-loop": {wEvent: 52, wAck: 14, wSave: 16, wMicro: 12, wLife: 2, wQuery: 6, pReserved: 70, pIllFormed: 0, pSkip: 0, pStore: 30, pAhead: 0, pLatest: 20, pFailSave: 10, pSysEv: 5, pRO: 0, minOps: 20, maxOps: 60, maxVb: 3},
 }
 
@@ -75,6 +77,10 @@ type genSt struct {
 	high     map[int]uint64
 	waiter   int // saver blocked in saveLock.Lock() (0 = none)
 	hung     bool
+	// sess-api (l1_api_gen.go)
+	viaAPI, pingFail, infoSent bool
+	infoM, infoT               int
+	nvbTot, memM, memT, effM, effT int // group mode: vBuckets of the bucket, newest membership info, info in effect
 }
 
 const prefixHex = "5f636f6e6e6563746f723a6362676f3a"
@@ -502,6 +508,9 @@ func (g *genSt) rebalance() {
 		return
 	}
 	lo, hi := g.lo, g.hi
+	if g.p.pApi > 0 {
+		lo, hi = g.apiReassign() // group mode: the range follows from the membership info PUT through the API
+	} else {
 	switch r.Intn(4) {
 	case 0: // shrink from the top
 		if hi > lo {
@@ -521,6 +530,7 @@ func (g *genSt) rebalance() {
 			hi++
 		}
 	}
+	}
 	for vb := lo; vb <= hi; vb++ {
 		h := g.high[vb]
 		if v := g.vbs[vb]; v != nil && v.next > 0 && v.next-1 > h {
@@ -529,6 +539,7 @@ func (g *genSt) rebalance() {
 		if d, ok := g.e.meta.store[uint16(vb)]; ok && d.Checkpoint.SeqNo > h {
 			h = d.Checkpoint.SeqNo
 		}
+		h = g.trackedFloor(vb, h) // l1_api_gen.go: … and everything already acknowledged (the save below may persist it)
 		if _, known := g.high[vb]; !known || h != g.high[vb] {
 			if !known && h == 0 {
 				h = uint64(r.Intn(100))
@@ -541,7 +552,12 @@ func (g *genSt) rebalance() {
 	if r.Chance(50) && !g.ro {
 		g.do("save ok")
 	}
-	real := g.do(fmt.Sprintf("rebalance %d %d", lo, hi))
+	rebOp := "rebalance"
+	if g.p.pApi > 0 && (g.viaAPI || r.Chance(40)) {
+		rebOp = "api-rebalance" // the same rebalance, triggered by GET /rebalance
+		g.tags["api.rebalance.open"] = true
+	}
+	real := g.do(fmt.Sprintf("%s %d %d", rebOp, lo, hi))
 	g.tags["life.rebalance"] = true
 	g.lo, g.hi = lo, hi
 	for _, part := range strings.Split(real, " ; ") {
@@ -617,8 +633,14 @@ func (g *genSt) life() {
 			g.tags["ack.after-close"] = true
 			g.do(fmt.Sprintf("ack %d", g.ctxIdx[r.Intn(len(g.ctxIdx))]))
 		}
+		if g.p.pApi > 0 {
+			g.apiClosed()
+		}
 	}
 	g.open = false
+	if g.p.pApi > 0 {
+		g.apiAdopt() // group mode: the next Open takes the range of the newest membership info
+	}
 	// the server's high seqno covers everything it has sent (and may have moved on while we were away)
 	for vb := g.lo; vb <= g.hi; vb++ {
 		h := g.high[vb]
@@ -641,6 +663,10 @@ func (g *genSt) life() {
 
 func (g *genSt) query() {
 	r := g.c.R
+	if g.p.pApi > 0 && r.Chance(g.p.pApi) {
+		g.apiQuery()
+		return
+	}
 	switch r.Intn(3) {
 	case 0:
 		g.do("offsets")
@@ -670,6 +696,10 @@ func genCase(c *Ctx, p profile) {
 		g.lo = r.Intn(1020)
 	}
 	g.hi = g.lo + nvb - 1
+	grpCfg := ""
+	if p.pApi > 0 {
+		grpCfg = g.apiGroupSetup() // sess-api: real vBucket discovery; lo/hi = the chunk of (member, size)
+	}
 	mode := r.Pick("inf", "inf", "fin")
 	reset := "earliest"
 	if r.Chance(p.pLatest) {
@@ -694,7 +724,7 @@ func genCase(c *Ctx, p profile) {
 	if g.ro {
 		roS = "1"
 	}
-	g.do(fmt.Sprintf("cfg lo=%d hi=%d mode=%s reset=%s ro=%s rm=0 skip=%s colls=%s", g.lo, g.hi, mode, reset, roS, skip, colls))
+	g.do(fmt.Sprintf("cfg lo=%d hi=%d mode=%s reset=%s ro=%s rm=0 skip=%s colls=%s%s", g.lo, g.hi, mode, reset, roS, skip, colls, grpCfg))
 	g.tags["mode."+mode] = true
 	g.tags["reset."+reset] = true
 	// environment: high seqnos, failover-log heads, stored checkpoints (also outside the assigned range)
@@ -756,6 +786,9 @@ func genCase(c *Ctx, p profile) {
 			g.do("save ok")
 		}
 		g.do("offsets")
+		if g.p.pApi > 0 {
+			g.do("api-offsets")
+		}
 	}
 	if !g.hung {
 		g.e.cleanup()
@@ -781,6 +814,9 @@ func runSession(c *Ctx, name string) {
 	}
 	p := profiles[name]
 	n := c.N(400, 20000)
+	if p.pApi > 0 {
+		n = c.N(400, 8000) // every case starts a few HTTP servers: ≈ 25 ms per case
+	}
 	for i := 0; i < n && sessionHangs < 3; i++ { // three hung cases are evidence enough: do not wait 8 s for every further one
 		genCase(c, p)
 	}
@@ -809,7 +845,7 @@ func replaySession(c *Ctx) {
 			}
 			e = newSessEnv()
 		}
-		c.E.Line(line, e.exec(line))
+		c.E.Line(line, replayGuarded(e, line)) // l1_api.go
 		n++
 	}
 	if e != nil {
